@@ -3,7 +3,7 @@ from checks import kern, fpgrid, modelstep
 
 TECHNIQUE = "symbolic execution of the real integration methods on z3-real proxies with state merging and cuts, plus IEEE-754 (QF_FP) execution of the real grid/keyring size code; SMT obligations (z3, cvc5 portfolio); counterexamples replayed on the unpatched code"
 EXPLANATION = "Real TimedCompartment.resolve_outflows/update/connect/__setitem__, TimedLink and Model.update_links/update_comps on a timed star with 1-5 rows: flush link, ordinary outflow, duration-preserving outflow into a group member with equal/longer/shorter keyring, duration-preserving inflow, plain inflows. Obligations (one-step shift lemma for arbitrary outflow requests): row r at t+1 == row r+1 at t - its recorded outflows + duration-preserving inflow into that row; last row == plain inflows of the step; flush == what is left in row 0; no duration-preserving move leaves row 0; a single row empties every step; moves inside the group keep the row index, surplus rows collapse into the destination's last row. Bounds: micro-graphs as listed per group; |values| <= 1e9, dt in [1/365,5], timescales in [1e-3,1e3]; real arithmetic (tolerance 1e-9 relative, 1e-8 for C03). Outside: larger fan-outs, float rounding, multi-step interactions other than through the arbitrary pre-state."
-GROUP_TIMEOUT = {"quick": 900, "thorough": 3000}
+GROUP_TIMEOUT = {"quick": 1800, "thorough": 3600}
 
 
 def groups(tier):
